@@ -160,7 +160,7 @@ BACKENDS = {"SerialExec": dict(file=SERIAL, backend="StdLibBackend", map_entry=(
 
 
 def build(tier, seed):
-    plan = Plan("C65", level="proof")
+    plan = Plan("C65", level="other")        # every obligation is size-bounded (all values, enumerated shapes): not a proof of the unbounded statement
     plan.explanation = (
         "PyNativeExec.{submit,map,starmap}, MPPoolExec.map and StdLibBackend.{submit,map,starmap} are executed symbolically from their real "
         "ASTs (the base-class helpers _get_backend/_submit_fn/_map_fn and each backend's _exec_backend are inlined from base.py / the "
